@@ -163,3 +163,59 @@ def check_pairs(pairs, tol=0.0):
             if d:
                 bad.append((name, d))
     return len(reqs), skipped, bad
+
+
+class tie:
+    """`with tie(ctx, what):` - every calculate_pka call of the real code made inside the block is recorded; on exit the
+    compiled Lean scoring model is run on (a bounded, de-duplicated sample of) the recorded conformations and the
+    agreement becomes an obligation of the check.  Discrete results (counts, determinant partners and order, coupled
+    titrating groups) are compared exactly, numbers to 1e-9; the evidence also says how many conformations were
+    bit-identical."""
+
+    def __init__(self, ctx, what, limit=None):
+        self.ctx, self.what = ctx, what
+        self.limit = limit if limit is not None else (160 if ctx.quick() else 1500)
+        self.rec = Recorder()
+
+    def __enter__(self):
+        self.rec.__enter__()
+        return self
+
+    def __exit__(self, et, ev, tb):
+        self.rec.__exit__(et, ev, tb)
+        if et is not None and not issubclass(et, Exception):
+            return False
+        ctx = self.ctx
+        seen, sample = set(), []
+        for p in self.rec.pairs:
+            key = hash(p[1]) if not isinstance(p[1], str) else ("oom", p[1])
+            if key in seen:
+                continue
+            seen.add(key)
+            sample.append(p)
+        # the largest conformations are the slowest and the least varied: keep a spread
+        if len(sample) > self.limit:
+            step = len(sample) / float(self.limit)
+            sample = [sample[int(i * step)] for i in range(self.limit)]
+        if not getattr(ctx, "driver_ok", True):
+            ctx.oblige("correspondence: Lean scoring model = real calculate_pka", False, "driver not built")
+            return False
+        n, skipped, bad = check_pairs(sample, tol=1e-9)
+        exact = 0
+        if n and not bad:
+            _, _, inexact = check_pairs(sample, tol=0.0)
+            exact = n - len(inexact)
+        ctx.count("scoring: conformations recorded", len(self.rec.pairs))
+        ctx.count("scoring: distinct conformations compared with the Lean model", n)
+        ctx.count("scoring: bit-identical", exact)
+        ctx.count("scoring: outside the model (shared_determinants, other versions, unexportable state)", skipped)
+        ngroups = sum(len(p[2]) for p in sample)
+        ndets = sum(len(r["sc"]) + len(r["bb"]) + len(r["cb"]) for p in sample for r in p[2])
+        ctx.count("scoring: groups compared", ngroups)
+        ctx.count("scoring: determinants compared", ndets)
+        ctx.oblige("correspondence: Lean scoring model (the whole of calculate_pka: desolvation, backbone, ion, reorganisation, pair loop, "
+                   "iterative scheme, totals, coupling penalties) = real calculate_pka on %d distinct conformations of %s (%d groups, %d "
+                   "determinants; counts/partners/order exact, numbers 1e-9)" % (n, self.what, ngroups, ndets),
+                   not bad, "; ".join("%s: %s" % (c, "; ".join(d[:3])) for c, d in bad[:2])[:600])
+        self.bad = bad
+        return False
